@@ -130,6 +130,8 @@ def after_event(r, lazy=False):
 def apply_choice(r, ch, lazy=False):
     n0 = len(r.steps)
     op = ch[0]
+    if op == "eager":            # a choice of a prefix that is applied with the eager discipline whatever the exploration uses
+        return apply_choice(r, list(ch[1]), False)
     if op == "boot":
         r.new()
         r.req("running")
@@ -249,9 +251,14 @@ def explore(d, env=None, lang="yaql", form=0, tok="task", rng=None, inputs=None)
     bud0 = {"pause": env.get("pause", 0), "resume": 0, "cancel": env.get("cancel", 0),
             "persist": env.get("persist", 0), "rerun": env.get("rerun", 0)}
     r0 = Real(d, lang=lang, form=form, tok=tok, inputs=inputs)
+    if env.get("persist_points") is not None:            # serialise + restore after these call ordinals (0 = right after construction)
+        r0.persist_points = "all" if env["persist_points"] == "all" else set(env["persist_points"])
     r0.use_delayed = env.get("delayed") or False        # True: delayed tasks report `delayed` first; "all": every action reports `requested` first
-    steps = apply_choice(r0, ["boot"], env.get("lazy"))
+    steps = apply_choice(r0, ["boot"], env.get("lazy") and not env.get("prefix"))
     n = tree.add_steps(0, steps, ["boot"])
+    for ch in env.get("prefix", []):          # a fixed history the exploration starts from
+        steps = apply_choice(r0, list(ch), env.get("lazy"))
+        n = tree.add_steps(n, steps, list(ch))
     seen = set()
     stack = [(r0, n, bud0, 1)]
     while stack:
@@ -291,11 +298,13 @@ def explore(d, env=None, lang="yaql", form=0, tok="task", rng=None, inputs=None)
     return tree
 
 
-def run_schedule(d, schedule, lang="yaql", form=0, tok="task", lazy=False, inputs=None, delayed=False):
+def run_schedule(d, schedule, lang="yaql", form=0, tok="task", lazy=False, inputs=None, delayed=False, persist_points=None):
     """Replay a list of choices (a `--replay` file, or a behaviour emitted by TLC) on a fresh
     conductor; returns the Real with its recorded steps."""
     r = Real(d, lang=lang, form=form, tok=tok, inputs=inputs)
     r.use_delayed = delayed or False
+    if persist_points is not None:
+        r.persist_points = "all" if persist_points == "all" else set(persist_points)
     for ch in schedule:
         apply_choice(r, ch, lazy)
     return r
